@@ -422,6 +422,47 @@ impl Guarded {
     }
 }
 
+/// `Array.prototype.join(",")` as used by ToString: nested arrays are walked with an explicit
+/// stack (the nesting depth is data, it must not consume native stack), null / undefined
+/// elements and arrays that are already being joined (cycles) contribute the empty string.
+fn join_nested_arrays(root_id: usize, root: &[JsValue]) -> String {
+    let mut out = String::new();
+    let mut stack: Vec<(usize, Vec<JsValue>, usize)> = vec![(root_id, root.to_vec(), 0)];
+    loop {
+        let Some((_, elements, index)) = stack.last_mut() else {
+            break;
+        };
+        let Some(value) = elements.get(*index).cloned() else {
+            stack.pop();
+            continue;
+        };
+        if *index > 0 {
+            out.push(',');
+        }
+        *index += 1;
+        match &value {
+            JsValue::Null | JsValue::Undefined => {}
+            JsValue::Object(inner) => {
+                let nested = match &inner.borrow().exotic {
+                    ExoticObject::Array { elements } => Some(elements.clone()),
+                    _ => None,
+                };
+                match nested {
+                    Some(elements) => {
+                        let id = inner.id();
+                        if !stack.iter().any(|(open, _, _)| *open == id) {
+                            stack.push((id, elements, 0));
+                        }
+                    }
+                    None => out.push_str(value.to_js_string().as_str()),
+                }
+            }
+            other => out.push_str(other.to_js_string().as_str()),
+        }
+    }
+    out
+}
+
 impl JsValue {
     /// Check if this value is null or undefined
     pub fn is_null_or_undefined(&self) -> bool {
@@ -640,17 +681,7 @@ impl JsValue {
                     }
                     ExoticObject::Array { elements } => {
                         // Array.prototype.toString joins elements with comma
-                        let strings: Vec<String> = elements
-                            .iter()
-                            .map(|v| {
-                                // null and undefined become empty strings in join
-                                match v {
-                                    JsValue::Null | JsValue::Undefined => String::new(),
-                                    _ => v.to_js_string().to_string(),
-                                }
-                            })
-                            .collect();
-                        JsString::from(strings.join(","))
+                        JsString::from(join_nested_arrays(obj.id(), elements))
                     }
                     // Built-in classes with a Symbol.toStringTag
                     ExoticObject::Generator(_) | ExoticObject::BytecodeGenerator(_) => {
